@@ -68,12 +68,23 @@ def hd_update(st, ref, state):
     st.setf(st.getf(ref, '_hidden_keys'), 'elems', set_from_json(state['hidden']))
 
 
+_ENV = {}
+
+
+def _env():
+    """the parsed tree and the contract registry, loaded once per process"""
+    if not _ENV:
+        from pyvc.run import Repo, prepare_lattice, load_contracts
+        repo = Repo()
+        prepare_lattice(repo)
+        _ENV['repo'], _ENV['reg'] = repo, load_contracts()
+    return _ENV['repo'], _ENV['reg']
+
+
 def replay_storage(witness, real):
-    from pyvc.run import Repo, prepare_lattice, load_contracts, models_factory
+    from pyvc.run import models_factory
     from contracts.shapes import STORAGE, STORAGE_FIELDS, new_obj
-    repo = Repo()
-    prepare_lattice(repo)
-    reg = load_contracts()
+    repo, reg = _env()
     c = reg.get(witness['contract'])
     fi = repo.function(c.path, c.name)
     axioms = LATTICE.axioms()
@@ -128,13 +139,11 @@ def replay_storage(witness, real):
 
 
 def replay_manager(witness, real):
-    from pyvc.run import Repo, prepare_lattice, load_contracts, models_factory
+    from pyvc.run import models_factory
     from pyvc.libmodels import Arr, NODE_FIELDS, EDGE_FIELDS, GRAPH_CLS, new_world
     from pyvc.values import NONE, SymB
     from contracts.shapes import (STORAGE, STORAGE_FIELDS, new_obj, DAG_CLS, MGR, CTX_CLS, new_lock_manager)
-    repo = Repo()
-    prepare_lattice(repo)
-    reg = load_contracts()
+    repo, reg = _env()
     c = reg.get(witness['contract'])
     fi = repo.function(c.path, c.name)
     axioms = LATTICE.axioms()
@@ -144,6 +153,24 @@ def replay_manager(witness, real):
     models.attach(it)
     new_world(it)
     gj = witness['graph']
+    # the networkx model assumes an acyclic graph (the builder can only produce such): a cyclic concretisation is spurious
+    succ = {}
+    for u, v in gj['edges']:
+        succ.setdefault(json.dumps(u, sort_keys=True), set()).add(json.dumps(v, sort_keys=True))
+    state_ = {}
+
+    def cyclic(n):
+        if state_.get(n) == 1:
+            return True
+        if state_.get(n) == 2:
+            return False
+        state_[n] = 1
+        r = any(cyclic(m_) for m_ in succ.get(n, ()))
+        state_[n] = 2
+        return r
+    if any(cyclic(n) for n in list(succ)):
+        return dict(replayed=True, reproduced=False, why='the concretised graph has a cycle; acyclicity is an assumption of the networkx '
+                    'model the contract is proved against (spurious model)')
     fields = dict(g_kind='base', g_nodes=set_from_json(gj['nodes']),
                   g_edges=set_from_json([{'t': 'tup2', 'a': u, 'b': v} for u, v in gj['edges']]))
     for f in NODE_FIELDS:
